@@ -689,6 +689,14 @@ func (v *FnV) checkFrame(ex Exit, sc *Scope, ord int) {
 		st.declare(r, "Int")
 		conds := []string{sLe("0", r), sLe(r, v.entry.alloc)}
 		for _, p := range modifiedParams(mods) {
+			if strings.HasSuffix(p, "[]") {
+				if pv, ok := sc.vars[strings.TrimSuffix(p, "[]")]; ok {
+					if slt, ok := pv.T.Underlying().(*types.Slice); ok && elemHeapName(v.substT(slt.Elem())) == name {
+						conds = append(conds, sNot(sEq(r, sx("sref", pv.S))))
+					}
+				}
+				continue
+			}
 			pv, ok := sc.vars[p]
 			if !ok {
 				continue
@@ -1841,7 +1849,20 @@ func (v *FnV) loopCore(st *State, node ast.Stmt, label string, modified []ast.No
 	}
 	if heapWrite || calls {
 		if !v.loopPure(modified) {
-			st.havocAllHeaps()
+			if targets, ok := v.sliceWriteTargets(st, objs, modified); ok {
+				// a call-free loop whose only heap writes are xs[i] = .. / xs[i].f = .. for local
+				// slices xs that the loop does not reassign: exactly those arrays change
+				for _, t := range targets {
+					slt := t.T.Underlying().(*types.Slice)
+					et := v.substT(slt.Elem())
+					name, h := v.elemHeap(st, et)
+					na := v.c.freshName("looparr")
+					st.declare(na, "(Array Int "+v.c.sortOf(et)+")")
+					st.setHeap(name, sStore(h, sx("sref", t.S), na))
+				}
+			} else {
+				st.havocAllHeaps()
+			}
 		}
 	}
 	if st.ghost != nil {
@@ -2385,4 +2406,110 @@ func (v *FnV) unrollLoop(st *State, node ast.Stmt, label string, ord, n int,
 	}
 	out.normal = v.merge(base, exits...)
 	return out
+}
+
+// sliceWriteTargets: see loopCore. ok is false unless every heap write of the loop is
+// provably a store into the array of a local slice variable.
+func (v *FnV) sliceWriteTargets(st *State, assigned []types.Object, nodes []ast.Node) (targets []Value, ok bool) {
+	info := v.info()
+	direct := map[types.Object]bool{}
+	for _, o := range assigned {
+		direct[o] = true
+	}
+	ok = true
+	seen := map[types.Object]bool{}
+	lhs := func(e ast.Expr) {
+		e = unparen(e)
+		if _, isId := e.(*ast.Ident); isId {
+			return
+		}
+		for {
+			switch x := e.(type) {
+			case *ast.ParenExpr:
+				e = x.X
+				continue
+			case *ast.SelectorExpr:
+				if t := info.TypeOf(x.X); t == nil {
+					ok = false
+					return
+				} else if _, isPtr := t.Underlying().(*types.Pointer); isPtr {
+					ok = false
+					return
+				}
+				e = x.X
+				continue
+			case *ast.IndexExpr:
+				id, isId := unparen(x.X).(*ast.Ident)
+				if !isId {
+					ok = false
+					return
+				}
+				obj, _ := info.Uses[id].(*types.Var)
+				if obj == nil || obj.IsField() || (obj.Pkg() != nil && obj.Parent() == obj.Pkg().Scope()) || v.boxed[obj] || direct[obj] {
+					ok = false
+					return
+				}
+				if _, isSl := obj.Type().Underlying().(*types.Slice); !isSl {
+					ok = false
+					return
+				}
+				val, have := st.env[obj]
+				if !have {
+					ok = false
+					return
+				}
+				if !seen[obj] {
+					seen[obj] = true
+					targets = append(targets, val)
+				}
+				return
+			default:
+				ok = false
+				return
+			}
+		}
+	}
+	for _, n := range nodes {
+		if n == nil {
+			continue
+		}
+		ast.Inspect(n, func(n ast.Node) bool {
+			switch x := n.(type) {
+			case *ast.AssignStmt:
+				for _, l := range x.Lhs {
+					lhs(l)
+				}
+			case *ast.IncDecStmt:
+				lhs(x.X)
+			case *ast.CallExpr:
+				if id, isId := unparen(x.Fun).(*ast.Ident); isId {
+					if b, isB := info.Uses[id].(*types.Builtin); isB && (b.Name() == "len" || b.Name() == "cap" || b.Name() == "min" || b.Name() == "max") {
+						return true
+					}
+				}
+				if tv, has := info.Types[x.Fun]; has && tv.IsType() {
+					return true // a conversion
+				}
+				ok = false
+			case *ast.UnaryExpr:
+				if x.Op == token.AND || x.Op == token.ARROW {
+					ok = false
+				}
+			case *ast.FuncLit, *ast.GoStmt, *ast.DeferStmt, *ast.SendStmt, *ast.SelectStmt:
+				ok = false
+			case *ast.RangeStmt:
+				if x.Key != nil {
+					lhs(x.Key)
+				}
+				if x.Value != nil {
+					lhs(x.Value)
+				}
+			}
+			return true
+		})
+	}
+	if len(targets) == 0 {
+		ok = false
+	}
+	return
 }
